@@ -54,6 +54,8 @@ def run(ctx):
     ctx.do(_C15v.rule_value_object, rule_id="C01.timestamp-pipeline")
     from .hidden_state import rule_no_hidden_state
     ctx.do(rule_no_hidden_state, "C01.history-independence")
+    from .pitfalls import rule_loops_not_cut_short
+    ctx.do(rule_loops_not_cut_short, "C01.loops-complete")
 
 
 # ---------------------------------------------------------------------------
